@@ -139,6 +139,9 @@ def gen_input_value(draw, spec, t, depth=0, boundary=False, allow_null=True):
             if required or (depth < 2 and draw(st.booleans())):
                 if depth >= 2 and not required:
                     continue
+                if "default" in f and ft[0] != "nn" and draw(st.integers(0, 2)) == 0:
+                    out[f["name"]] = None   # an explicit null where a default is declared: the null wins, not the default
+                    continue
                 v = gen_input_value(draw, spec, ft, depth + 1, boundary)
                 if v is None and ft[0] == "nn":
                     v = gen_nonnull(draw, spec, ft, depth + 1)
